@@ -5,6 +5,7 @@ package main
 import (
 	"fmt"
 	"go/token"
+	"sort"
 	"strings"
 
 	"golang.org/x/tools/go/ssa"
@@ -166,6 +167,126 @@ func c02(p *Prog, r *Report) {
 	r.Rule(R5, "type 5: numElements == len(tokenInputs) dominates success; token i = decode(tokenInputs[i] ++ outputs[i]) with the same i", 2)
 
 	c02Body(p, r, R1, R2, R3, R4, R5)
+
+	// R7: every bit of a response is bound. A dependency decoder that ignores
+	// bits of its input (found by bit-provenance analysis of the dependency's
+	// own code, not by a list) lets a corrupted response through unless the
+	// caller accepts the canonical encoding only.
+	const R7 = "C02.response-decoded-canonically"
+	r.Rule(R7, "each DLEQ proof decoded from a response: the scalar decoder of the group in use ignores no input bit (bit-provenance analysis of the dependency), or every success return is dominated by bytes.Equal(proof.MarshalBinary(), the bytes decoded)", 2)
+	for _, name := range []string{
+		"(~/tokens/type1.BasicPrivateTokenRequestState).FinalizeToken",
+		"(~/tokens/type5.BatchedPrivateTokenRequestState).FinalizeTokens",
+	} {
+		fn := anchor(p, r, R7, name)
+		if fn == nil {
+			continue
+		}
+		s := p.NewSym(fn)
+		sites := sitesIn(fn, func(n string) bool { return strings.HasSuffix(n, "zk/dleq.Proof).UnmarshalBinary") })
+		if len(sites) == 0 {
+			r.Fail(R7, shortName(fn)+": proof decoding site", p.Pos(fn.Pos()), "no call of (*dleq.Proof).UnmarshalBinary found: the rule no longer sees how the proof is decoded")
+			continue
+		}
+		for _, site := range sites {
+			ct := s.callTerm(site)
+			gt := arg(ct, 1).String()
+			key := shortName(fn) + ": proof decoded canonically"
+			if !strings.HasPrefix(gt, "load(global:") {
+				r.Fail(R7, key, p.InstrPos(site), "the group handed to the proof decoder is "+clip(gt, 120)+", not a package-level group constant: undecided")
+				continue
+			}
+			global := strings.TrimSuffix(strings.TrimPrefix(gt, "load(global:"), ")")
+			dec, why := p.groupScalarDecoder(global)
+			if dec == nil {
+				r.Fail(R7, key, p.InstrPos(site), "cannot resolve the scalar decoder of "+global+": "+why)
+				continue
+			}
+			culprit, dropped, explored := p.bitDroppingDecoder(dec)
+			if culprit == nil {
+				r.OK(R7, key, p.InstrPos(site), fmt.Sprintf("scalar decoder %s: %d dependency functions explored, none ignores a bit of its input", shortName(dec), explored))
+				continue
+			}
+			// the canonical check: bytes.Equal(proof.MarshalBinary(), enc) == true on every success return
+			encT := arg(ct, 2).String()
+			covered, nS := true, 0
+			for _, rp := range s.ff.RetPoints(verdictIndex(fn)) {
+				if rp.Outcome == Fails {
+					continue
+				}
+				nS++
+				found := false
+				for _, a := range p.expandFacts(s, rp.Facts, 0) {
+					c, ok, succ := callOfAtom(a.Atom)
+					if !ok || !succ || !wholeValueEquality[calleeName(c.Common())] {
+						continue
+					}
+					isReenc := func(v ssa.Value) bool {
+						ex, ok := v.(*ssa.Extract)
+						if !ok || ex.Index != 0 {
+							return false
+						}
+						mc, ok := ex.Tuple.(*ssa.Call)
+						if !ok || !strings.HasSuffix(calleeName(mc.Common()), "zk/dleq.Proof).MarshalBinary") || len(mc.Call.Args) == 0 {
+							return false
+						}
+						return mc.Call.Args[0] == site.Common().Args[0] && dominates(site, mc)
+					}
+					a0, a1 := c.Common().Args[0], c.Common().Args[1]
+					if (isReenc(a0) && a.S.Of(a1).String() == encT) || (isReenc(a1) && a.S.Of(a0).String() == encT) {
+						found = true
+					}
+				}
+				if !found {
+					covered = false
+				}
+			}
+			var bitsS []string
+			for _, d := range dropped {
+				bitsS = append(bitsS, fmt.Sprintf("%d.%d", d/8, d%8))
+			}
+			if covered && nS > 0 {
+				r.OK(R7, key, p.InstrPos(site), fmt.Sprintf("%s ignores input bits (byte.bit) %s, and every success return is dominated by bytes.Equal(proof.MarshalBinary(), encoding)", shortName(culprit), strings.Join(bitsS, " ")))
+			} else {
+				r.Fail(R7, key, p.InstrPos(site), fmt.Sprintf("the scalar decoder reached from %s ignores bits of its input: %s never looks at (byte.bit) %s of each scalar, and no success return is dominated by a comparison of proof.MarshalBinary() with the bytes decoded - a response with those bits flipped is accepted", shortName(dec), shortName(culprit), strings.Join(bitsS, " ")))
+			}
+		}
+	}
+
+	// R6: a request state answers every response the same way: finalization
+	// may not write memory reached through the state (a second response for the
+	// same request - after a rejected one, or a replay - would otherwise be
+	// judged against changed inputs)
+	const R6 = "C02.finalization-leaves-the-state-intact"
+	r.Rule(R6, "FinalizeToken(s): no instruction of this module may write memory of or reachable from the request state, appends behind len excepted (mod/ref summaries over the call graph)", 4)
+	e := p.Effects()
+	for _, name := range []string{
+		"(~/tokens/type1.BasicPrivateTokenRequestState).FinalizeToken",
+		"(~/tokens/type2.BasicPublicTokenRequestState).FinalizeToken",
+		"(~/tokens/type3.RateLimitedTokenRequestState).FinalizeToken",
+		"(~/tokens/type5.BatchedPrivateTokenRequestState).FinalizeTokens",
+	} {
+		fn := anchor(p, r, R6, name)
+		if fn == nil {
+			continue
+		}
+		sm := e.Summary(fn)
+		var bad []string
+		for k, w := range sm.All {
+			if k.kind == 'G' || k.idx != 0 {
+				continue
+			}
+			if k.siteFn == nil || !InModule(k.siteFn) {
+				continue // inside a dependency (circl's value-preserving normalisations are C17's known finding)
+			}
+			if k.op == "builtin.append" {
+				continue // append writes behind len: the state's visible content is unchanged (C16 judges aliasing)
+			}
+			bad = append(bad, e.describe(w))
+		}
+		sort.Strings(bad)
+		r.Check(len(bad) == 0, R6, shortName(fn)+": the request state is not written", p.Pos(fn.Pos()), "no write through the receiver", "finalization may write the request state: "+strings.Join(bad, "; ")+" - a later response for the same request is then checked against changed inputs")
+	}
 }
 
 // c02Body: the per-type checks, parameterised by rule names so that C01 can
